@@ -84,6 +84,10 @@ static void do_act(struct evconnlistener *l, const char *a)
 	else if (!strcmp(a, "setnull")) evconnlistener_set_cb(l, NULL, NULL);
 	else if (!strcmp(a, "setfn2")) evconnlistener_set_cb(l, fn2, (void *)2);
 	else if (!strcmp(a, "disen")) { evconnlistener_disable(l); evconnlistener_enable(l); }
+	else if (!strcmp(a, "disfree")) { evconnlistener_disable(l); evconnlistener_free(l); lev_live = 0; }
+	else if (!strcmp(a, "nullfree")) { evconnlistener_set_cb(l, NULL, NULL); evconnlistener_free(l); lev_live = 0; }
+	else if (!strcmp(a, "enfree")) { evconnlistener_enable(l); evconnlistener_free(l); lev_live = 0; }
+	else if (!strcmp(a, "disenfree")) { evconnlistener_disable(l); evconnlistener_enable(l); evconnlistener_free(l); lev_live = 0; }
 	else { fprintf(stderr, "bad callback action %s\n", a); exit(3); }
 }
 
